@@ -163,6 +163,20 @@ def text_class(v, delim):
     return '+'.join(c) if c else 'plain'
 
 
+def pos_class(case, pos):
+    """text class of the value at pos, refined by where the field sits in its written line: leading/trailing blanks are a
+    different defect class at the edge of a line (first / last field) than in the interior"""
+    v = _get(case, pos)
+    base = text_class(v, case['delim'])
+    if not isinstance(v, str) or not ('edge-space' in base or base == 'blank-string'):
+        return base
+    idepth = len(case['index']) if case.get('inc_i', True) else 0
+    total = idepth + len(case['cols'])
+    field = pos[1] if pos[0] == 'index' else idepth + (pos[1] if pos[0] == 'cell' else pos[2])
+    at_edge = (v[0] == ' ' and field == 0) or (v[-1] == ' ' and field == total - 1)
+    return base if at_edge else base.replace('edge-space', 'interior-edge-space').replace('blank-string', 'interior-blank-string')
+
+
 PLAIN = {'b': True, 'i': 3, 'f': '1.5', 's': 'a'}
 
 
@@ -406,7 +420,7 @@ def delim_key(case):
             path = 'tsv'
     rest = _specials(cur)
     if rest:
-        classes = sorted({f'{p[0]}:{text_class(_get(cur, p), cur["delim"])}' for p in rest})
+        classes = sorted({f'{p[0]}:{pos_class(cur, p)}' for p in rest})
         out = f'{PID}:{path}:' + ','.join(classes), cur
     else:
         out = f'{PID}:{path}:plain:{_cfg_tag(cur)}', cur
@@ -579,7 +593,7 @@ def eval_delimited(rep, case):
             # the failure is explained by keys recorded earlier in this run (deterministic: enumeration order is fixed)
             cur, touched = case, False
             for pos in _specials(case):
-                cls_ = text_class(_get(case, pos), case['delim'])
+                cls_ = pos_class(case, pos)
                 if ('delimited', pos[0], cls_) in _KNOWN or (case['delim'] == '\t' and ('tsv', pos[0], cls_) in _KNOWN):
                     cur, touched = _replace(cur, pos), True
             if touched and _unique_labels(cur):
@@ -589,7 +603,7 @@ def eval_delimited(rep, case):
             key, mini = delim_key(case)
             rest = _specials(mini)
             if len(rest) == 1:
-                _KNOWN.add((key.split(':')[1], rest[0][0], text_class(_get(mini, rest[0]), mini['delim'])))
+                _KNOWN.add((key.split(':')[1], rest[0][0], pos_class(mini, rest[0])))
         except Exception:
             rep.error(f'delimited minimisation {case}')
             return
